@@ -83,7 +83,7 @@ SPEC = {
     "props_module": PROPS_MODULE,
     "required": ["macro_propagates", "macro_returns_first_error", "builder_model_is_reference", "builder_atomic",
                  "builder_accepts_iff", "builder_appends", "builder_errors", "builder_never_panics", "builder_sequences",
-                 "no_panic_partial", "no_panic_reexecute_partial", "no_panic_stabilizer_partial", "no_panic_stabilizer_unconditional", "reps_same_constructor_unconditional", "exec_either_representation_partial",
+                 "no_panic_partial", "no_panic_reexecute_partial", "no_panic_stabilizer_partial", "stabilizer_ok_or_refuses_partial", "stabilizer_refuses_nonclaiming_partial", "nonclaiming_vector_ok_stabilizer_err_partial", "no_panic_stabilizer_unconditional", "reps_same_constructor_unconditional", "exec_either_representation_partial",
                  "reps_same_constructor_partial", "exports_never_panic_partial", "export_input_is_the_circuit", "openqasm_table_is_current",
                  "neg_zero_shots", "neg_repeated_qubit", "measure_all_short_same_error", "peek_all_long_same_error",
                  "measure_all_len_rejected_identically", "neg_cbit_ge_64",
@@ -104,7 +104,7 @@ SPEC = {
             "failed call, whether every public query of the object (nr_qbits, nr_cbits, is_stabilizer_circuit, verif_nr_ops, the three exports) is unchanged; the final number of operations. Then open_qasm / c_qasm / latex (class), "
             "execute_with on QuStateRepr::vector and ::stabilizer, reexecute after each (also after an error inside a run), and execute_with(vector) once more on the same object, with 0/1/2/3/5 shots: every traced operation is re-run by "
             "the Lean model from the implementation's own pre-state with its logged draws (step lines), the failing operation too. "
-            "Fixed stream: each of rx ry rz u1 u2 u3 (every parameter position), add_gate RX, CRX, CRY and a conditional RY with a NaN, +inf and -inf parameter, followed by measure / peek / reset / measure_x / measure_basis Y / peek_basis X / measure_all / peek_all and a further measure, on both representations. QuState stream: on VectorState and StabilizerState directly (0-3 qubits, 0-3 shots, after a short valid prelude) every public trait method that takes a gate or an operand list - apply_gate, apply_unary_gate_all, apply_conditional_gate, measure_into, peek_into, measure_all_into, peek_all_into, reset, reset_all - with gates of arity 0 (Composite::new(\"nop\", 0)), 1, 2, operand lists right / empty / short / long / repeated / descending / one past the register, control slices of the wrong length, classical bits 63 / 64, registers shorter and longer than the shot count; each call compared with the model from the implementation's own pre-state (qs lines), the two representations with each other (qpair), and the same object used once more afterwards. Macro stream: 46 compiled circuit! invocations, one per builder method with a failing call in the middle (arguments count "
+            "Fixed Kron stream: 14 Kron gates with factors of different widths (1+2, 2+1, 1+3, 3+1, nested; also equal widths), plain and under a condition, on distinct in-range qubits in ascending / descending / rotated order - built, exported to all three formats and executed on both representations. Fixed stream: each of rx ry rz u1 u2 u3 (every parameter position), add_gate RX, CRX, CRY and a conditional RY with a NaN, +inf and -inf parameter, followed by measure / peek / reset / measure_x / measure_basis Y / peek_basis X / measure_all / peek_all and a further measure, on both representations. QuState stream: on VectorState and StabilizerState directly (0-3 qubits, 0-3 shots, after a short valid prelude) every public trait method that takes a gate or an operand list - apply_gate, apply_unary_gate_all, apply_conditional_gate, measure_into, peek_into, measure_all_into, peek_all_into, reset, reset_all - with gates of arity 0 (Composite::new(\"nop\", 0)), 1, 2, operand lists right / empty / short / long / repeated / descending / one past the register, control slices of the wrong length, classical bits 63 / 64, registers shorter and longer than the shot count; each call compared with the model from the implementation's own pre-state (qs lines), the two representations with each other (qpair), and the same object used once more afterwards. Macro stream: 46 compiled circuit! invocations, one per builder method with a failing call in the middle (arguments count "
             "their own evaluations), plus failing first/last calls and zero-width registers. (B): builders vs the reference reading "
             "(first out-of-range index), no PANIC anywhere, identical rejection by both representations, macro returns the first error; "
             "every failure carries the violated WellFormed conjunct as class tag. "
@@ -159,12 +159,18 @@ def run(ctx):
         "no_panic_partial / no_panic_reexecute_partial: vector representation only, hypothesis ExecWF (the execution-relevant "
         "conjuncts of WellFormed, incl. well-formed Composite/Loop bodies and nr_qbits < 64); the numeric panic site WeightedIndex::new(..).unwrap() "
         "(all-zero / NaN weights) is not excluded by operand shapes (C02 excludes it in exact arithmetic)",
-        "no_panic_stabilizer_partial / reps_same_constructor_partial (stabilizer representation, all register sizes, fresh state or "
+        "no_panic_stabilizer_* / reps_same_constructor_* (stabilizer representation, all register sizes, fresh state or "
         "re-execute): hypotheses ExecWF, Circuit::is_stabilizer_circuit() accepts the circuit (the condition under which execute() "
-        "chooses this representation; the NotAStabilizer refusal of other circuits is not covered), parameter-free gate terms, and "
-        "C03's open hypothesis DetShapeHolds (the deterministic branch of measure finds its Z row). BackendSafe is no longer a "
-        "hypothesis: proved from C03's progress theorems (Proofs/NoPanicStab.lean lift, Proofs/NoPanicStabC03.lean discharge); the "
+        "chooses this representation) and parameter-free gate terms; DetShapeHolds is proved by C03 (the _unconditional twins). "
+        "BackendSafe is proved from C03's progress theorems (Proofs/NoPanicStab.lean lift, Proofs/NoPanicStabC03.lean discharge); the "
         "statement is about the tableau model with C03's conjugation conjOfT over the generated tables Conj / PhaseTable",
+        "stabilizer_ok_or_refuses_partial / stabilizer_refuses_nonclaiming_partial / nonclaiming_vector_ok_stabilizer_err_partial "
+        "(caller-chosen stabilizer representation, any gates): hypothesis ExecWF; every run ends Ok or Err(NotAStabilizer), never a "
+        "panic; it ends Err(NotAStabilizer) when the first non-claiming operation is an UNCONDITIONAL gate. For a non-claiming "
+        "CONDITIONAL gate the refusal happens only if some shot satisfies the condition (apply_conditional_gate conjugates only "
+        "those columns), so only `Ok or NotAStabilizer` is stated. C03's conjOfRule maps the index panic of Composite::conjugate to "
+        "an error; the theorems do not lean on that: refuse_exact (Proofs/ConjRefuseExact.lean) shows C06's model answers "
+        "NotAStabilizer itself - not the panic, not an arity error - on a well-formed term and a slice of its width",
         "exports_never_panic_partial covers all three exporters as statements about the exporter models of C11 / C12 / C13 on the "
         "image of the built circuit, under WellFormed; for latex() with the extra hypothesis condOneColumn (a conditional gate is a "
         "one-column library gate under distinct condition bits: the class C13's no-panic theorem covers; not a panic class, hence "
